@@ -49,6 +49,7 @@ var candidates = []finding{
 	{"docx-tracked-insertion-dropped", "docx", "docx.inline=ins", "ins"},
 	{"docx-content-control-dropped", "docx", "docx.inline=sdt", "sdt"},
 	{"docx-smarttag-dropped", "docx", "docx.inline=smart", "smart"},
+	{"docx-block-content-control-dropped", "docx", "docx.block=sdt", "blocksdt"},
 	{"odt-mixed-content-reordered", "odt", "odt.inline=mixed", "mixed"},
 	{"odt-tab-dropped", "odt", "odt.inline=tab", "tab"},
 	{"odt-line-break-dropped", "odt", "odt.inline=break", "break"},
@@ -77,7 +78,7 @@ func profile(format string, bias string, big bool) logical.Profile {
 		Lists:           true, ListMaxDepth: 3,
 		Tables: true, MaxRows: 4, MaxCols: 4, Spans: true, MultiPara: true, EmptyCells: true, CellSpecials: true, HeaderRows: true,
 		Pipes: true, XMLChars: true, EmptyParas: true, HeaderFooter: true, Title: true,
-		BlockBias: bias,
+		BlockBias: bias, BlockContainers: true,
 	}
 	if big {
 		p.MaxBlocks = 30
@@ -532,7 +533,13 @@ func witnessDoc(f finding, tk *fw.Tokens) *logical.Doc {
 		p.Runs = []logical.Run{{Items: []logical.Item{text(), {Kind: logical.KSpaces, N: 3}, text()}}}
 	}
 	lead := logical.Para{Runs: []logical.Run{{Items: []logical.Item{text()}}}}
-	d.Blocks = []logical.Block{{Kind: logical.BPara, Para: &lead}, {Kind: logical.BPara, Para: &p}}
+	blk := logical.Block{Kind: logical.BPara, Para: &p}
+	if f.Key == "blocksdt" {
+		p.Runs = []logical.Run{{Items: []logical.Item{text()}}}
+		blk.Wrap = "container"
+	}
+	tail := logical.Para{Runs: []logical.Run{{Items: []logical.Item{text()}}}}
+	d.Blocks = []logical.Block{{Kind: logical.BPara, Para: &lead}, blk, {Kind: logical.BPara, Para: &tail}}
 	return d
 }
 
